@@ -123,20 +123,28 @@ type engine struct {
 	runner *runner
 }
 
-func (e *engine) check(dep *target) error {
+func (e *engine) check(dep *target, seen map[*target]struct{}) error {
 	if dep == e.root {
 		return CyclicDependencyError(fmt.Sprintf("cyclic dependency on %v", dep.label))
 	}
+	if _, ok := seen[dep]; ok {
+		return nil
+	}
+	seen[dep] = struct{}{}
 
 	if waiting := dep.waiting.Load(); waiting != nil {
-		return e.checkDeps(*waiting)
+		return e.checkDepsSeen(*waiting, seen)
 	}
 	return nil
 }
 
 func (e *engine) checkDeps(deps []*target) error {
+	return e.checkDepsSeen(deps, map[*target]struct{}{})
+}
+
+func (e *engine) checkDepsSeen(deps []*target, seen map[*target]struct{}) error {
 	for _, t := range deps {
-		if err := e.check(t); err != nil {
+		if err := e.check(t, seen); err != nil {
 			return err
 		}
 	}
